@@ -142,10 +142,12 @@ def Open(tag="el", define=(), sw=NOE, cs=NOE, cond=NOE, rep=None, sub=None, omit
     it["ds"] = ds
     it["fs"] = fs
     if um:
-        it["um"] = {"m": "yes", "mname": um[0] or "", "whole": um[0] is None, "lib": um[1], "ext": bool(um[2]) if len(um) > 2 else False,
-                    "fills": []}
+        # um[0]: macro name, None (whole template) or ("var", name): the macro named by the value of that variable
+        mvar = um[0][1] if isinstance(um[0], tuple) else ""
+        it["um"] = {"m": "yes", "mname": "" if mvar else (um[0] or ""), "mvar": mvar, "whole": um[0] is None, "lib": um[1],
+                    "ext": bool(um[2]) if len(um) > 2 else False, "fills": []}
     else:
-        it["um"] = {"m": "no", "mname": "", "whole": False, "lib": 0, "ext": False, "fills": []}
+        it["um"] = {"m": "no", "mname": "", "mvar": "", "whole": False, "lib": 0, "ext": False, "fills": []}
     it["mslots"] = []
     # I18N: domain / context / target settings of the element
     it["i18n"] = dict({"m": "no", "d": "", "c": "", "t": "", "tv": ""}, **(i18n or {}))   # tv: the target is read from this variable
